@@ -18,12 +18,14 @@ import (
 	"fmt"
 	"math/big"
 	"strings"
+	"sync"
 	"testing"
 
 	"go.minekube.com/common/minecraft/component"
 	"go.minekube.com/common/minecraft/key"
 	"go.minekube.com/gate/pkg/edition/java/proto/packet"
 	"go.minekube.com/gate/pkg/edition/java/proto/packet/cookie"
+	"go.minekube.com/gate/pkg/edition/java/proto/version"
 	"go.minekube.com/gate/pkg/edition/java/proxy/message"
 	"go.minekube.com/gate/pkg/edition/java/proxy/zzverif/bfs"
 	"go.minekube.com/gate/pkg/edition/java/proxy/zzverif/vrt"
@@ -43,9 +45,13 @@ type c08Scn struct {
 	Pre   string // allow | deny | offline | online (config offline, handler forces online) | msg (allow + handler sends a login plugin message)
 	So    string // session server: 200 | 204 | 401 | err | noname | empty | 500
 	NoKey bool   // 1.19 / 1.19.1 client WITHOUT a profile key on a proxy with forceKeyAuthentication: false
+	PP    bool   // config switch prevent-client-proxy-connections: the join request also carries the client's IP
 }
 
 func (s c08Scn) name() string {
+	if s.PP {
+		return fmt.Sprintf("p%dpp-%s-%s", s.Proto, s.Pre, s.So)
+	}
 	if s.NoKey {
 		return fmt.Sprintf("p%dnokey-%s-%s", s.Proto, s.Pre, s.So)
 	}
@@ -55,7 +61,42 @@ func (s c08Scn) name() string {
 const (
 	c08Name    = "Player_1"
 	c08BadName = "bad name!"
+	c08Name16  = "Sixteen_chars_16"  // longest name the protocol permits
+	c08Name17  = "Seventeen_chars_1" // one character too long
 )
+
+// quantifier audit: "valid secrets" - the derived server id is Java's SIGNED hex of the SHA-1, so valid secrets are
+// taken from all four shapes of that number: positive / negative, with / without leading zero digits. The secrets are
+// found by search against the independent reference refServerID (the kit's server key is fixed).
+var (
+	c08SecretsOnce sync.Once
+	c08Secrets     map[string][]byte // "ERg" | "ERgN" (negative) | "ERgZ" (positive, leading zero) | "ERgM" (negative, leading zero)
+)
+
+func c08SecretFor(op string, pub []byte) []byte {
+	c08SecretsOnce.Do(func() {
+		c08Secrets = map[string][]byte{"ERg": c08Secret}
+		for i := 0; len(c08Secrets) < 4 && i < 1000000; i++ {
+			sec := []byte(fmt.Sprintf("%016d", i))
+			id := refServerID(sec, pub)
+			neg := strings.HasPrefix(id, "-")
+			short := len(strings.TrimPrefix(id, "-")) < 40
+			k := ""
+			switch {
+			case neg && !short:
+				k = "ERgN"
+			case !neg && short:
+				k = "ERgZ"
+			case neg && short:
+				k = "ERgM"
+			}
+			if k != "" && c08Secrets[k] == nil {
+				c08Secrets[k] = sec
+			}
+		}
+	})
+	return c08Secrets[op]
+}
 
 var (
 	c08Secret      = []byte("0123456789abcdef") // 16 bytes: a valid AES key
@@ -80,7 +121,9 @@ type c08Run struct {
 	// reference monitor
 	lsCount, erCount, ackCount int
 	firstLoginValid            bool
-	proofIdx                   int // index of the op that proved the issued token with a decryptable 16-byte secret (-1 none)
+	proofIdx                   int    // index of the op that proved the issued token with a decryptable 16-byte secret (-1 none)
+	proofSecret                []byte // ... and the secret it carried
+	loginName                  string // username of the first login start
 	admitted                   bool
 	sawRegistered              bool
 	loginEvents                []string
@@ -96,6 +139,7 @@ func (c *c08Run) fail(key, format string, a ...any) {
 func newC08Run(scn c08Scn) *c08Run {
 	cfg := kitConfig()
 	cfg.OnlineMode = scn.Pre != "online"
+	cfg.ShouldPreventClientProxyConnections = scn.PP
 	if scn.NoKey {
 		cfg.ForceKeyAuthentication = false
 	}
@@ -116,6 +160,8 @@ func newC08Run(scn c08Scn) *c08Run {
 		s.Server.Status, s.Server.Body = 200, fmt.Sprintf(`{"id":"%s","properties":[]}`, c08ProfileID.Undashed())
 	case "empty":
 		s.Server.Status, s.Server.Body = 200, ""
+	case "badjson":
+		s.Server.Status, s.Server.Body = 200, "<html>502 bad gateway</html>"
 	}
 	ch, _ := message.ChannelIdentifierFrom("verif:prelogin")
 	kitOn(s.Events, func(e *PreLoginEvent) {
@@ -166,7 +212,9 @@ func (c *c08Run) issued() [][]byte {
 
 func (c *c08Run) successIdx() int { return c.s.Conn.firstIndex("", &packet.ServerLoginSuccess{}) }
 
-func (c *c08Run) keyed() bool { return c.scn.Proto == 760 && !c.scn.NoKey }
+func (c *c08Run) keyed() bool { return c08Keyed(c.scn) }
+
+func c08Keyed(scn c08Scn) bool { return (scn.Proto == 759 || scn.Proto == 760) && !scn.NoKey }
 
 // build makes the packet for op and reports (loginPacket, proves) where proves = this response
 // proves possession of the ISSUED token and carries a decryptable, AES-usable secret.
@@ -188,6 +236,19 @@ func (c *c08Run) build(op c08Op) (p proto.Packet, loginPacket, proves bool) {
 			l.HolderID = c08ProfileID
 		}
 		return l, true, false
+	case "LSv16": // valid name of the maximum length
+		l := &packet.ServerLogin{Username: c08Name16}
+		if c.keyed() {
+			l.PlayerKey = &kitClientKey{mojangValid: true, holder: c08ProfileID}
+			l.HolderID = c08ProfileID
+		}
+		return l, true, false
+	case "LSi17": // one character more than the protocol permits
+		l := &packet.ServerLogin{Username: c08Name17}
+		if c.keyed() {
+			l.PlayerKey = &kitClientKey{mojangValid: true, holder: c08ProfileID}
+		}
+		return l, true, false
 	case "LSi":
 		l := &packet.ServerLogin{Username: c08BadName}
 		if c.keyed() {
@@ -200,8 +261,8 @@ func (c *c08Run) build(op c08Op) (p proto.Packet, loginPacket, proves bool) {
 		return &packet.ServerLogin{Username: c08Name, PlayerKey: &kitClientKey{mojangValid: true, expired: true, holder: c08ProfileID}}, true, false
 	case "LSn": // 1.19.1 client without a key
 		return &packet.ServerLogin{Username: c08Name}, true, false
-	case "ERg":
-		r := &packet.EncryptionResponse{SharedSecret: kitEncrypt(pub, c08Secret)}
+	case "ERg", "ERgN", "ERgZ", "ERgM":
+		r := &packet.EncryptionResponse{SharedSecret: kitEncrypt(pub, c08SecretFor(op.K, pub))}
 		if c.keyed() {
 			r.Salt, r.VerifyToken = &salt, kitSignToken(token, salt)
 		} else {
@@ -214,6 +275,18 @@ func (c *c08Run) build(op c08Op) (p proto.Packet, loginPacket, proves bool) {
 			r.Salt, r.VerifyToken = &salt, kitSignToken(wrong, salt)
 		} else {
 			r.VerifyToken = kitEncrypt(pub, wrong)
+		}
+		return r, true, false
+	case "ERtx", "ERte": // the issued token followed by one more byte / an empty token
+		bad := append(append([]byte{}, token...), 0x00)
+		if op.K == "ERte" {
+			bad = []byte{}
+		}
+		r := &packet.EncryptionResponse{SharedSecret: kitEncrypt(pub, c08Secret)}
+		if c.keyed() {
+			r.Salt, r.VerifyToken = &salt, kitSignToken(bad, salt)
+		} else {
+			r.VerifyToken = kitEncrypt(pub, bad)
 		}
 		return r, true, false
 	case "ERs": // token right, secret is not a valid ciphertext
@@ -254,6 +327,8 @@ func (c *c08Run) build(op c08Op) (p proto.Packet, loginPacket, proves bool) {
 		return &packet.LoginPluginResponse{ID: 99, Success: true, Data: []byte{1}}, false, false
 	case "LP1":
 		return &packet.LoginPluginResponse{ID: 1, Success: true, Data: []byte{1}}, false, false
+	case "LP1f": // the client does not understand the request
+		return &packet.LoginPluginResponse{ID: 1, Success: false}, false, false
 	case "ACK":
 		return &packet.LoginAcknowledged{}, true, false
 	case "CK":
@@ -274,13 +349,18 @@ func (c *c08Run) step(i int, op c08Op) {
 	case strings.HasPrefix(op.K, "LS"):
 		inOrder = c.lsCount == 0 && c.erCount == 0 && c.ackCount == 0
 		if inOrder {
-			c.firstLoginValid = op.K == "LSv"
+			c.firstLoginValid = op.K == "LSv" || op.K == "LSv16"
+			c.loginName = p.(*packet.ServerLogin).Username
 		}
 		c.lsCount++
 	case strings.HasPrefix(op.K, "ER"):
 		inOrder = c.lsCount == 1 && nReq == 1 && c.erCount == 0
 		if inOrder && proves {
 			c.proofIdx = i
+			c.proofSecret = c08Secret
+			if sec := c08SecretFor(op.K, s.Deps.authenticator.PublicKey()); sec != nil {
+				c.proofSecret = sec
+			}
 		}
 		c.erCount++
 	case op.K == "ACK":
@@ -339,7 +419,7 @@ func (c *c08Run) checkAdmission(op c08Op) {
 	}
 	encIdx := -1
 	for i, e := range s.Conn.events {
-		if e.Kind == "encrypt" && e.Info == hex.EncodeToString(c08Secret) {
+		if e.Kind == "encrypt" && e.Info == hex.EncodeToString(c.proofSecret) {
 			encIdx = i
 			break
 		}
@@ -353,15 +433,15 @@ func (c *c08Run) checkAdmission(op c08Op) {
 		c.fail("admitted-encryption-after-success", "ServerLoginSuccess was written before encryption was enabled (%s)", s.Conn.trace())
 		return
 	}
-	wantID := refServerID(c08Secret, s.Deps.authenticator.PublicKey())
+	wantID := refServerID(c.proofSecret, s.Deps.authenticator.PublicKey())
 	ok := false
 	for _, call := range s.Server.Calls {
-		if call.ServerID == wantID && call.Username == c08Name {
+		if call.ServerID == wantID && call.Username == c.loginName {
 			ok = true
 		}
 	}
 	if !ok || c.scn.So != "200" {
-		c.fail("admitted-without-session-confirmation", "admitted but the session server did not confirm (serverId=%s, username=%s): outcome %s, calls %+v", wantID, c08Name, c.scn.So, s.Server.Calls)
+		c.fail("admitted-without-session-confirmation", "admitted but the session server did not confirm (serverId=%s, username=%s): outcome %s, calls %+v", wantID, c.loginName, c.scn.So, s.Server.Calls)
 		return
 	}
 }
@@ -437,10 +517,10 @@ func honest(scn c08Scn) (key, desc string, good []c08Op) {
 
 func c08Scenarios(thorough bool) []c08Scn {
 	var out []c08Scn
-	sos := []string{"200", "204", "401", "err", "noname"}
-	if thorough {
-		sos = append(sos, "empty", "500")
-	}
+	// every class of answer AuthenticateJoin / GameProfile distinguish: 200 + profile, 204, 401, transport error,
+	// 200 without a name, 200 with an empty body, another status, 200 with a body that is not JSON
+	sos := []string{"200", "204", "401", "err", "noname", "empty", "500", "badjson"}
+	_ = thorough
 	for _, p := range []int{47, 760, 764} {
 		for _, so := range sos {
 			out = append(out, c08Scn{Proto: p, Pre: "allow", So: so}, c08Scn{Proto: p, Pre: "online", So: so})
@@ -450,6 +530,24 @@ func c08Scenarios(thorough bool) []c08Scn {
 			out = append(out, c08Scn{Proto: p, Pre: "msg", So: "200"}, c08Scn{Proto: p, Pre: "msg", So: "204"})
 		}
 	}
+	// the other sides of the protocol gates of the login path: 1.7 (no compression packet), 1.19.3 (no key in login start
+	// any more), the newest version (login success layout); keyed 1.19 (759)
+	for _, p := range []int{5, 761, int(version.MaximumVersion.Protocol)} {
+		for _, so := range []string{"200", "204"} {
+			out = append(out, c08Scn{Proto: p, Pre: "allow", So: so}, c08Scn{Proto: p, Pre: "online", So: so})
+		}
+		out = append(out, c08Scn{Proto: p, Pre: "deny", So: "200"}, c08Scn{Proto: p, Pre: "offline", So: "200"})
+		if p >= 393 {
+			out = append(out, c08Scn{Proto: p, Pre: "msg", So: "200"})
+		}
+	}
+	for _, so := range []string{"200", "401"} {
+		out = append(out, c08Scn{Proto: 759, Pre: "allow", So: so})
+	}
+	out = append(out, c08Scn{Proto: 759, Pre: "online", So: "200"}, c08Scn{Proto: 759, Pre: "offline", So: "200"}, c08Scn{Proto: 759, Pre: "deny", So: "200"})
+	// configuration switch on the path: the join request carries the client's address
+	out = append(out, c08Scn{Proto: 47, Pre: "allow", So: "200", PP: true}, c08Scn{Proto: 764, Pre: "allow", So: "204", PP: true},
+		c08Scn{Proto: 764, Pre: "allow", So: "200", PP: true})
 	// keyless 1.19 / 1.19.1 clients (the only versions whose EncryptionResponse can carry a salt)
 	// on a proxy that does not force key authentication
 	for _, p := range []int{759, 760} {
@@ -462,19 +560,21 @@ func c08Scenarios(thorough bool) []c08Scn {
 }
 
 func c08Ops(scn c08Scn) []c08Op {
-	ops := []c08Op{{"LSv"}, {"ERg"}, {"LSi"}, {"ERt"}, {"ERs"}, {"ERl"}, {"ERr"}, {"LPu"}, {"UNK"}}
+	ops := []c08Op{{"LSv"}, {"ERg"}, {"LSi"}, {"ERt"}, {"ERs"}, {"ERl"}, {"ERr"}, {"LPu"}, {"UNK"},
+		// quantifier audit: valid secrets of every server-id shape, names on both sides of the length limit, two more wrong tokens
+		{"ERgN"}, {"ERgZ"}, {"ERgM"}, {"LSv16"}, {"LSi17"}, {"ERtx"}, {"ERte"}}
 	if scn.NoKey {
 		// salted wire forms sent by a client that has no key to sign with
 		return append(ops, c08Op{"ERsg"}, c08Op{"ERse"}, c08Op{"ERst"}, c08Op{"ERsw"})
 	}
-	if scn.Proto == 760 {
+	if c08Keyed(scn) {
 		ops = append(ops, c08Op{"LSx"}, c08Op{"LSe"}, c08Op{"LSn"}, c08Op{"ERn"}, c08Op{"ERb"})
 	}
 	if scn.Proto >= 764 {
 		ops = append(ops, c08Op{"ACK"}, c08Op{"CK"})
 	}
 	if scn.Pre == "msg" {
-		ops = append(ops, c08Op{"LP1"})
+		ops = append(ops, c08Op{"LP1"}, c08Op{"LP1f"})
 	}
 	return ops
 }
@@ -524,5 +624,13 @@ func TestVerif(t *testing.T) {
 			}
 		}
 		r.AddExtra("admitting_outcomes", int64(admitted))
+		if r.Shard == 0 {
+			pub := newKitAuth(&kitSessionServer{}).PublicKey()
+			var ids []string
+			for _, k := range []string{"ERg", "ERgN", "ERgZ", "ERgM"} {
+				ids = append(ids, fmt.Sprintf("%s: secret %q -> reference server id %s", k, c08SecretFor(k, pub), refServerID(c08SecretFor(k, pub), pub)))
+			}
+			r.Extra("valid_secrets_by_server_id_shape", strings.Join(ids, "; "))
+		}
 	})
 }
